@@ -284,14 +284,16 @@ pub fn size(a: &HashMap<String, String>) -> i32 {
             None => continue,
         };
         let ms: Vec<Option<u32>> = vec![Some((l as u32).saturating_sub(1).max(1)), Some(l as u32), Some(l as u32 + 1), Some(1), Some(u32::MAX), None];
-        for (m, auth) in ms.iter().flat_map(|m| [(*m, false), (*m, true)]) {
+        for (m, auth, own) in ms.iter().flat_map(|m| [(*m, false, None), (*m, true, None), (*m, false, Some(2u32)), (*m, false, Some(l as u32 - 1))]) {
             let run = match sink.mine() {
                 Some(r) => r,
                 None => continue,
             };
             let mut steps = vec![reset("size", Some(2), m)];
-            // second variant: the limits arrive in a CONNACK that concludes an extended authentication
+            // second variant: the limits arrive in a CONNACK that concludes an extended authentication; third and fourth: the
+            // client announced a Maximum Packet Size of its own in CONNECT (that limits the server, not the client)
             steps[0]["auth"] = json!(auth);
+            steps[0]["own_max"] = json!(own);
             steps.push(json!({"a": "call", "op": 1, "h": 0, "spec": spec}));
             steps.push(settle_wake());
             let kind = spec["kind"].as_str().unwrap_or("");
@@ -625,12 +627,14 @@ pub fn resume(a: &HashMap<String, String>) -> i32 {
                 // cut points: after every step that ends a "phase" (a ctx poll or an op poll)
                 let cuts: Vec<usize> = (0..=hist.len()).filter(|c| *c == 0 || *c == hist.len() || hist[*c - 1]["a"] == "poll").collect();
                 for cut in cuts {
-                    for (sei, secs) in [(0u32, 0u64), (100, 0), (100, 150), (u32::MAX, 0), (u32::MAX, 1_000_000)] {
+                    // (requested interval, interval assigned by the broker in CONNACK - that one governs -, seconds since the loss)
+                    for (sei, sei_ack, secs) in [(0u32, None, 0u64), (100, None, 0), (100, None, 150), (u32::MAX, None, 0), (u32::MAX, None, 1_000_000),
+                                                 (1000, Some(10u32), 50), (5, Some(1000), 50), (0, Some(u32::MAX), 7), (u32::MAX, Some(0), 0)] {
                         let run = match sink.mine() {
                             Some(x) => x,
                             None => continue,
                         };
-                        let p = Params { fam: "resume".into(), r: Some(10), sei_connect: Some(sei), ..Default::default() };
+                        let p = Params { fam: "resume".into(), r: Some(10), sei_connect: Some(sei), sei_connack: sei_ack, ..Default::default() };
                         let mut steps = vec![p.to_json()];
                         steps.extend(hist[..cut].iter().cloned());
                         steps.push(settle_wake());
@@ -963,6 +967,43 @@ pub fn backlog(a: &HashMap<String, String>) -> i32 {
             steps.push(settle());
             sink.run_script(run, steps, seed);
         }
+    }
+    sink.finish();
+    0
+}
+
+// ---------------------------------------------------------------------------------------------
+// C11, subscription identifiers beyond 2^16 subscribe() calls: a traced subscribe, 65 534 untraced ones, then traced ones again -
+// the identifiers of the traced calls must all differ, and a message for the last one must reach its stream only.
+
+pub fn sidwrap(a: &HashMap<String, String>) -> i32 {
+    let mut sink = Sink::new(a);
+    let seed = seed_of(a);
+    for gap in [65_533u64, 65_534, 65_535, 65_536] {
+        let run = match sink.mine() {
+            Some(x) => x,
+            None => continue,
+        };
+        let mut steps = vec![reset("sidwrap", None, None)];
+        for k in 1..=2usize {
+            steps.push(json!({"a": "call", "op": k, "h": 0, "spec": {"kind": "sub", "filters": [{"f": format!("f/{}", k), "qos": 1}]}}));
+            steps.push(settle_wake());
+            steps.push(json!({"a": "pkt", "pk": {"t": "SUBACK", "id": {"op": k}, "rcs": [1]}}));
+            steps.push(settle_wake());
+        }
+        steps.push(json!({"a": "burnsub", "n": gap}));
+        for k in 3..=6usize {
+            steps.push(json!({"a": "call", "op": k, "h": 0, "spec": {"kind": "sub", "filters": [{"f": format!("f/{}", k), "qos": 1}]}}));
+            steps.push(settle_wake());
+            steps.push(json!({"a": "pkt", "pk": {"t": "SUBACK", "id": {"op": k}, "rcs": [1]}}));
+            steps.push(settle_wake());
+        }
+        for k in [6usize, 1, 4] {
+            steps.push(json!({"a": "pkt", "pk": {"t": "PUBLISH", "qos": 1, "id": 40 + k as u16, "dup": 0, "topic": format!("m/{}", k), "payload": format!("for{}", k), "sids": [{"sub": k}]}}));
+            steps.push(settle_wake());
+        }
+        steps.push(settle());
+        sink.run_script(run, steps, seed);
     }
     sink.finish();
     0
@@ -1773,7 +1814,7 @@ pub fn endings(a: &HashMap<String, String>) -> i32 {
     let thorough = tier_of(a);
     let mut sink = Sink::new(a);
     let seed = seed_of(a);
-    let states = ["idle", "ops", "midq2", "queued", "recunpolled", "recunpolled-drop"];
+    let states = ["idle", "ops", "midq2", "queued", "recunpolled", "recunpolled-drop", "stbuf"];
     let mut causes: Vec<Value> = vec![];
     for behind in 0..3usize {
         for after in 0..2usize {
@@ -1837,6 +1878,18 @@ pub fn endings(a: &HashMap<String, String>) -> i32 {
                     }
                     next = 5;
                     live_ops = vec![2, 3, 4];
+                }
+                "stbuf" => {
+                    // a stream with two messages buffered that the consumer has not taken yet (they must still come out, then the end)
+                    steps.push(json!({"a": "call", "op": 1, "h": 0, "spec": {"kind": "sub", "filters": [{"f": "f/1", "qos": 1}]}}));
+                    steps.push(settle_wake());
+                    steps.push(json!({"a": "pkt", "pk": {"t": "SUBACK", "id": {"op": 1}, "rcs": [1]}}));
+                    steps.push(settle_wake());
+                    for i in 0..2 {
+                        steps.push(json!({"a": "pkt", "pk": {"t": "PUBLISH", "qos": i as u8, "id": 30 + i as u16, "dup": 0, "topic": format!("b/{}", i), "payload": "kept", "sids": [{"sub": 1}]}}));
+                        steps.push(poll_ctx());
+                    }
+                    next = 2;
                 }
                 "recunpolled" | "recunpolled-drop" => {
                     // a QoS 2 publish whose PUBREC the actor has handled but whose future has not been polled since
@@ -1933,7 +1986,7 @@ pub fn endings(a: &HashMap<String, String>) -> i32 {
                 }
                 _ => {}
             }
-            if st == "recunpolled-drop" {
+            if st == "recunpolled-drop" || st == "stbuf" {
                 // the context ends and is dropped before the caller between its QoS 2 phases is polled again
                 steps.push(poll_ctx());
                 steps.push(poll_ctx());
